@@ -97,8 +97,10 @@ func runC15(cfg *config, res *monitor.Result) {
 		g, procs int
 		fast     bool
 		maxBuf   int
+		filter   string // "" | "zero" (always shrink to 0) | "one" (shrink to 1) | "yield" (shrink to 0, yielding inside the callback)
 	}{
-		{2, 1, false, -1}, {8, 2, false, 1}, {64, 16, false, -1}, {8, 16, true, -1}, {64, 2, true, 2}, {16, 16, false, 0}, {2, 16, true, -1}, {32, 1, false, 2},
+		{2, 1, false, -1, ""}, {8, 2, false, 1, ""}, {64, 16, false, -1, ""}, {8, 16, true, -1, ""}, {64, 2, true, 2, ""}, {16, 16, false, 0, ""}, {2, 16, true, -1, ""}, {32, 1, false, 2, ""},
+		{8, 16, false, -1, "zero"}, {16, 2, true, -1, "one"}, {8, 1, false, -1, "yield"}, {32, 16, true, -1, "yield"},
 	}
 	blog := &boundaryLog{lastOwner: map[*lazyproto.DecodeResult]int{}, grams: map[uint64]struct{}{}}
 	for ci, c := range configs {
@@ -114,12 +116,24 @@ func runC15(cfg *config, res *monitor.Result) {
 		if c.maxBuf >= 0 {
 			opts = append(opts, lazyproto.WithMaxBufferSize(c.maxBuf))
 		}
+		switch c.filter {
+		case "zero":
+			opts = append(opts, lazyproto.WithBufferFilterFunc(func(int) int { return 0 }))
+		case "one":
+			opts = append(opts, lazyproto.WithBufferFilterFunc(func(int) int { return 1 }))
+		case "yield":
+			// caller-supplied code that takes its time: whatever Close() does around it must not be visible to others
+			opts = append(opts, lazyproto.WithBufferFilterFunc(func(int) int { runtime.Gosched(); return 0 }))
+		}
 		dec, err := lazyproto.NewDecoder(def, opts...)
 		if err != nil {
 			res.Inconc("NewDecoder: " + err.Error())
 			continue
 		}
 		cfgName := fmt.Sprintf("G%d/procs%d/%s/max%d", c.g, c.procs, modeStr(c.fast), c.maxBuf)
+		if c.filter != "" {
+			cfgName += "/filter-" + c.filter
+		}
 		cfg.progress.Set("c15", cfgName)
 		var wg sync.WaitGroup
 		start := make(chan struct{})
